@@ -740,8 +740,11 @@ class BufferAsyncCalls(Generic[T]):
         else:
             self.event.clear()  # Ensure cleared in case previous cancel
             self.q.task_done()
-        # Keep adding new args until the function has run successfully
-        while not self.event.is_set():
+        # Keep adding new args until the function has run successfully.
+        # The shared event can't be used to tell: another thread may
+        # clear it again (see _put) right after it was set, which would
+        # offer the same inputs to the function a second time.
+        while True:
             # Get all the input generators currently in the queue
             input_gens.extend(map(_load_inputs, self._empty_queue()))
             # Schedule the q.get() and save it as an attribute so it
@@ -756,11 +759,12 @@ class BufferAsyncCalls(Generic[T]):
             try:
                 await _load_inputs(await self._getting)
             except (aio.TimeoutError, aio.CancelledError):
-                await self._run_func(inputs)
+                if await self._run_func(inputs):
+                    return
             else:
                 self.q.task_done()
 
-    async def _run_func(self, inputs: Set[T]) -> None:
+    async def _run_func(self, inputs: Set[T]) -> bool:
         """
         Run :attr:`func` with the given set of inputs and set
         :attr:`event` once it has finished successfully.
@@ -768,14 +772,18 @@ class BufferAsyncCalls(Generic[T]):
         If an exception is raised, log it with its traceback and return
         without setting the event to prevent the buffered inputs from
         being lost.
+
+        :return: True if the function finished successfully.
         """
         try:
             if inputs:  # Could be empty if all empty iterators
                 await self.func(inputs)
         except BaseException as e:  # noqa
             logging.exception("Failed to run %s, retrying", self.func)
+            return False
         else:
             self.event.set()
+            return True
 
     def _schedule_with_timeout(self, coro: Awaitable[X]) -> 'aio.Task[X]':
         """
